@@ -207,11 +207,47 @@ def iter_box(box: Sequence[Sequence[int]]):
     return itertools.product(*[range(lo, hi + 1) for lo, hi in box])
 
 
+WIDE = 1 << 20  # a shared domain with more values is never enumerated
+
+
+def iter_box_model(model: dict, box: Sequence[Sequence[int]]):
+    """Like iter_box, but a WIDE shared domain is derived instead of enumerated: it must be the value of an element_iv
+    constraint (v = l[i], the only way a finite model gives meaning to a domain of 2^31 values); the other domains are
+    enumerated and the wide one takes the one value the table allows (no tuple if the index is outside the table or
+    the value outside the domain).  Independent of NuCS: it is the definition of the constraint read as a function."""
+    wide = [d for d, (lo, hi) in enumerate(box) if hi - lo + 1 > WIDE]
+    if not wide:
+        yield from iter_box(box)
+        return
+    src = {}
+    for vs, alg, prm in model["props"]:
+        if alg == "element_iv" and model["idx"][vs[1]] in wide and model["idx"][vs[1]] not in src and model["idx"][vs[0]] not in wide:
+            src[model["idx"][vs[1]]] = (vs[0], vs[1], prm)
+    if set(src) != set(wide):
+        raise ValueError("a wide shared domain that no element_iv constraint defines: the reference cannot enumerate it")
+    narrow = [range(lo, hi + 1) if d not in src else (None,) for d, (lo, hi) in enumerate(box)]
+    for t in itertools.product(*narrow):
+        t = list(t)
+        ok = True
+        for d, (iv, vv, prm) in src.items():
+            i_val = t[model["idx"][iv]] + model["off"][iv]
+            if not 0 <= i_val < len(prm):
+                ok = False
+                break
+            sv = prm[i_val] - model["off"][vv]
+            if not box[d][0] <= sv <= box[d][1]:
+                ok = False
+                break
+            t[d] = sv
+        if ok:
+            yield tuple(t)
+
+
 def solutions(model: dict, box: Optional[Sequence[Sequence[int]]] = None) -> List[Tuple[int, ...]]:
     """All solutions as tuples of VARIABLE values, in lexicographic order of the shared-domain tuple."""
     box = box if box is not None else model["shr"]
     out = []
-    for shr_vals in iter_box(box):
+    for shr_vals in iter_box_model(model, box):
         vv = var_values(model, shr_vals)
         if holds(model, vv):
             out.append(vv)
@@ -219,7 +255,7 @@ def solutions(model: dict, box: Optional[Sequence[Sequence[int]]] = None) -> Lis
 
 
 def shr_solutions(model: dict, box: Sequence[Sequence[int]]) -> List[Tuple[int, ...]]:
-    return [s for s in iter_box(box) if holds(model, var_values(model, s))]
+    return [s for s in iter_box_model(model, box) if holds(model, var_values(model, s))]
 
 
 def hull(points: List[Tuple[int, ...]]) -> Optional[List[List[int]]]:
